@@ -1503,6 +1503,31 @@ impl Check for ClientCheck {
             "C20" => {
                 fams.push(Family::new("dangling_with_a_reused_receipt_number", 8, true, |i, _| reused_receipt_plan(i)));
                 fams.push(Family::new("end_of_day_refused_in_the_long_form", 36, true, |i, _| eod_long_refusal_plan(i)));
+                // 'receiver not ready' once - in Feig::new's own end-of-day or behind an earlier transaction -, then
+                // a later end-of-day refused with another code: each refusal is judged on its own code
+                fams.push(Family::new("end_of_day_not_ready_earlier_then_refused", 256 * 2 * 2, true, |i, _| {
+                    let code = (i % 256) as u8;
+                    let commit = (i / 256) % 2 == 0;
+                    let in_new = i / 512 == 1;
+                    let eod = |c: u8| CleanupSpec { eod: EodOutcome { pre: 0, status: false, prints: 0, end: EndSpec::Abort(c) }, ..CleanupSpec::plain() };
+                    let close = |t: &str, c: CleanupSpec| if commit {
+                        OpSpec::Commit { token: t.into(), amount: 300, rev: RevOutcome::success(), cleanup: c }
+                    } else {
+                        OpSpec::Cancel { token: t.into(), rev: RevOutcome::success(), cleanup: c }
+                    };
+                    let mut ops = vec![];
+                    if !in_new {
+                        ops.push(OpSpec::Begin { token: "A".into(), res: ResOutcome::success() });
+                        ops.push(close("A", eod(0xa0)));
+                    }
+                    ops.push(OpSpec::Begin { token: "B".into(), res: ResOutcome::success() });
+                    ops.push(close("B", eod(code)));
+                    let mut p = ClientPlan::plain(ops);
+                    if in_new {
+                        p.init.cleanup = eod(0xa0);
+                    }
+                    p
+                }));
                 // a reservation whose status information already shows the result code the abort will carry
                 fams.push(Family::new("reservation_status_shows_the_abort_code", 256 * 2, true, |i, _| {
                     let mut p = ClientPlan::plain(vec![
